@@ -105,8 +105,13 @@ class Materializer:
     def inner(self, pid):
         if pid in self.cache:
             return self.cache[pid]
-        spec = self.world.scenario['packets'][str(pid)] if str(pid) in self.world.scenario['packets'] \
-            else self.world.scenario['packets'][pid]
+        pk = self.world.scenario['packets']
+        if str(pid) in pk:
+            spec = pk[str(pid)]
+        elif pid in pk:
+            spec = pk[pid]
+        else:
+            raise DanglingRef(f'packet {pid} is not part of the (minimised) scenario any more')
         wire = self._build(spec)
         self.cache[pid] = wire
         return wire
@@ -145,6 +150,13 @@ class Materializer:
             wire = bytes(enc.make_interest(name, ip, ap, signer=_signer(sig, for_interest=True)))
             if spec.get('bad_digest'):
                 wire = self._break_digest(wire)
+            if spec.get('digest_from') is not None:
+                # the digest component of an earlier, genuine Interest re-used with OTHER parameters
+                donor = tlvref.parse_interest(self.inner(spec['digest_from']))
+                mine = tlvref.parse_interest(wire)
+                if donor.params_digest is not None and mine.params_digest is not None and donor.params_digest != mine.params_digest:
+                    idx = wire.rfind(mine.params_digest)
+                    wire = wire[:idx] + donor.params_digest + wire[idx + 32:]
             return wire
         if k == 'raw':
             return bytes.fromhex(spec['hex'])
@@ -388,6 +400,7 @@ class PipeWorld(World):
         kind = self.face_kind
         if kind == 'direct':
             self.face = DirectFace(self._on_tx)
+            self.face.rx_buffer = self.cfg.get('rx_buffer', 'bytes')
             self.peer = None
         elif kind in ('tcp', 'unix'):
             from ndn.transport.stream_face import TcpFace, UnixFace
@@ -502,6 +515,8 @@ class PipeWorld(World):
                 await run(name)
                 return {'PASS': True, 'ALLOW_BYPASS': 1, 'FAIL': False, 'SILENCE': 0, 'TIMEOUT': None,
                         'TRUTHY_STR': 'ok', 'EMPTY': ''}.get(verdict, False)
+        if vspec.get('falsy'):
+            return _FalsyCallable(validator)    # a validator OBJECT that happens to be falsy (e.g. holds an empty list)
         return validator
 
     def op_express(self, op):
@@ -515,6 +530,9 @@ class PipeWorld(World):
         if op.get('digest_of') is not None:
             inner = self.mat.inner(op['digest_of'])
             comps.append(tlvref.tlv(tlvref.T_IMPLICIT_DIGEST, hashlib.sha256(inner).digest()))
+        if op.get('placeholder') and op.get('app_param') is not None:
+            ph = tlvref.tlv(tlvref.T_PARAMS_DIGEST, bytes(32))
+            comps.insert(len(comps) if op['placeholder'] == 'end' or len(comps) < 2 else len(comps) - 1, ph)
         validator = self.make_validator(op.get('validator'), ('express', iid))
         kwargs = dict(can_be_prefix=op.get('cbp', False), must_be_fresh=op.get('mbf', False),
                       lifetime=op.get('lifetime', 4000), nonce=1000 + iid)
@@ -787,7 +805,7 @@ class PipeWorld(World):
         self.stats['fault.' + op['op']] += 1
         if self.face_kind in ('tcp', 'unix'):
             if op['op'] == 'reset':
-                self.peer.reset()
+                self.peer.reset(op.get('exc', 'reset'))
             else:
                 self.peer.eof()
         elif self.face_kind == 'udp':
